@@ -521,8 +521,9 @@ class Database:
         # iterate over the top level H5Groups and copy
         for time, h5ts in zip(inputDB.genTimeSteps(), inputDB.genTimeStepGroups()):
             cyc, tn = time
-            if cyc == startCycle and tn == startNode:
-                # all data up to current state are merged
+            if (cyc, tn) >= (startCycle, startNode):
+                # all data up to current state are merged (the steps come in chronological order,
+                # so this also stops when the start point itself is not a step of the input)
                 return
             self.h5db.copy(h5ts, h5ts.name)
 
